@@ -9,24 +9,28 @@
    i.e. the block registers hold the request, and the invariant is re-established for the next call, whatever
    history of accepted / rejected / failed calls, self-tests and soft resets preceded (c01_history).
    "Overridden by exactly the values passed to its setters" is C02 (request = setters applied to the cloned block).
-   All 12 builder bodies have a generated theorem.  PARTIAL in one respect: the side condition `wfb d` (every shadow byte
-   below 256 — what the u8 fields of the Rust structs guarantee by typing) is a hypothesis of each per-call theorem and is
-   not chained along histories as an invariant inside Coq. *)
+   All 12 builder bodies have a generated theorem.  Their side condition `wfb d` (every shadow byte below 256 — what the u8
+   fields of the Rust structs guarantee by typing, lost in the translation to unbounded N) is itself an invariant of every
+   history of well-typed API calls, at every exit, for every transport and fault plan (c01_wf_every_exit, c01_state_history:
+   proofs/WfInv.v, WfOps.v, generated spec/WfThms.v — every setter keeps a record of bytes for arguments in their Rust type's
+   range, every write() body and the self-test only put bytes into the shadow), and the request handed to write() by
+   `config_x().with_..()...` is made of bytes (apply_all_wf_<B>), so the hypotheses of the per-call theorems are met at every
+   call of every history (c01_every_builder_call_ready). *)
 Require Import BMA.lib.Base BMA.lib.Reflect BMA.gen.GenTypes BMA.gen.GenPure BMA.lib.Prog BMA.gen.GenProg BMA.gen.GenMeta
                BMA.lib.Encode BMA.gen.GenApi BMA.gen.GenLens BMA.lib.Run BMA.lib.Driver BMA.proofs.Generic BMA.proofs.Rules BMA.proofs.Coherent
                BMA.proofs.Symex BMA.proofs.BuilderSpec BMA.proofs.Builders BMA.proofs.SymexLink BMA.proofs.BuilderCor
-               BMA.spec.Datasheet BMA.spec.BuilderProps.
+               BMA.proofs.OdrInv BMA.proofs.OdrOps BMA.proofs.WfInv BMA.proofs.WfOps BMA.spec.Datasheet BMA.spec.BuilderProps BMA.spec.WfThms.
 Require Import BMA.props.C16.
 Open Scope N_scope.
 
 (* after any history the device holds the shadow on every shadowed register: the hypothesis `coherent d c` of the
    per-builder theorems is met at every call *)
-Theorem c01_partial_history : forall cs s dev, forallb (fun c => api_only (fst c)) cs = true ->
+Theorem c01_coherent_history : forall cs s dev, forallb (fun c => api_only (fst c)) cs = true ->
   let w := history (init_world dev s) cs in coherent (shadow w) (wchip w).
 Proof. intros cs s dev H w. apply c16_every_history; [exact H | apply c16_initial]. Qed.
 
 (* the accepted case of one builder, spelled out for the FIFO builder as an instance *)
-Theorem c01_partial_fifo_instance : forall d c r0 r1 r2 r3, wfb d = true -> r0 < 256 -> r1 < 256 -> r2 < 256 -> r3 < 256 -> coherent d c ->
+Theorem c01_fifo_instance : forall d c r0 r1 r2 r3, wfb d = true -> r0 < 256 -> r1 < 256 -> r2 < 256 -> r3 < 256 -> coherent d c ->
   forall c' evs', sem (FifoConfigBuilder_write (mk_FifoConfig r0 r1 r2 r3)) d c [] = ADone tt (set_Config_fifo_config (mk_FifoConfig r0 r1 r2 r3) d) c' evs' ->
   regs c' 31 = regs c 31 /\ regs c' 32 = regs c 32 /\ regs c' 47 = regs c 47 /\ forall a, ~ In a [38; 39; 40; 41] -> ~ In a ENABLES -> regs c' a = regs c a.
 Proof.
@@ -37,4 +41,78 @@ Proof.
   assert (E : ghost_of (set_Config_fifo_config (mk_FifoConfig r0 r1 r2 r3) d) = ghost_of d) by (destruct_cfg d; reflexivity).
   unfold ghost_of in E. rewrite E in G. rewrite <- G0 in G. injection G as G1 G2 G3.
   repeat split; try assumption.
+Qed.
+
+(* ---- the byte-range side condition is an invariant ---- *)
+Theorem keepsw_self_test : keepsw BMA400_perform_self_test.
+Proof. intros d H0. ww_start d H0. cbv delta [BMA400_perform_self_test]; cbv beta. timeout 600 ww. Qed.
+
+Lemma keepsw_modify_id : forall f, (forall d, wfb d = true -> wfb (f d) = true) -> keepsw (modify f).
+Proof. intros f Hf d H. unfold modify. cbn [wpw]. apply Hf. exact H. Qed.
+
+Ltac keepsw_step :=
+  lazymatch goal with
+  | |- keepsw (Ret _) => apply keepsw_ret
+  | |- keepsw (Fail _) => apply keepsw_fail
+  | |- keepsw PanicP => apply keepsw_panic
+  | |- keepsw FuelP => apply keepsw_fuel
+  | |- keepsw BMA400_perform_self_test => apply keepsw_self_test
+  | |- keepsw (bind _ _) => apply keepsw_bind; [ | intro ]
+  | |- keepsw (write_register _ _) => apply keepsw_write
+  | |- keepsw (read_register _ _) => apply keepsw_read
+  | |- keepsw (delay_ms _) => apply keepsw_delay
+  | |- keepsw get_shadow => apply keepsw_get
+  | |- keepsw (put_shadow _) => apply keepsw_put; vm_compute; reflexivity
+  | |- keepsw (lift_res _) => apply keepsw_lift
+  | |- keepsw (let x := ?e in @?f x) => refine (keepsw_let _ _ e f _); intro
+  | |- keepsw (if ?b then _ else _) => destruct b
+  | |- keepsw (match ?x with _ => _ end) => destruct x
+  | |- keepsw (?h _ _ _) => unfold h
+  | |- keepsw (?h _ _) => unfold h
+  | |- keepsw (?h _) => unfold h
+  | |- keepsw ?h => unfold h
+  end.
+Ltac keepsw_all := repeat keepsw_step.
+
+Theorem step_keepsw : forall op, api_only op = true -> op_wf op = true -> keepsw (step op).
+Proof.
+  intros op H Hw. destruct op; try discriminate H; clear H; cbn [op_wf] in Hw;
+    first [ apply keepsw_config_accel; exact Hw | apply keepsw_config_actchg_int; exact Hw | apply keepsw_config_auto_lp; exact Hw
+          | apply keepsw_config_autowkup; exact Hw | apply keepsw_config_fifo; exact Hw | apply keepsw_config_gen1_int; exact Hw
+          | apply keepsw_config_gen2_int; exact Hw | apply keepsw_config_interrupts; exact Hw | apply keepsw_config_int_pins; exact Hw
+          | apply keepsw_config_orientchg_int; exact Hw | apply keepsw_config_tap; exact Hw | apply keepsw_config_wkup_int; exact Hw
+          | unfold step; keepsw_all ].
+Qed.
+
+(* at every exit of every well-typed call, for every transport and fault plan *)
+Theorem c01_wf_every_exit : forall T op fl w, api_only op = true -> op_wf op = true -> wfb (shadow w) = true ->
+  wfb (shadow (world_of (run T (step op) (begin_call fl w)))) = true.
+Proof.
+  intros T op fl w Hop Hw H.
+  apply (wpw_run _ T (step op) (begin_call fl w) (fun _ d' => wfb d' = true)); auto.
+  apply (step_keepsw op Hop Hw). exact H.
+Qed.
+
+(* the state in which every call of a history finds the driver and the device: belief = device, bytes, ODR rules *)
+Definition Ready (w : world) : Prop := Coh w /\ wfb (shadow w) = true.
+Definition ops_ok (cs : list (api_op * list N)) : bool := forallb (fun c => api_only (fst c) && op_wf (fst c))%bool cs.
+
+Theorem c01_state_history : forall cs w, ops_ok cs = true -> Ready w -> Ready (history w cs).
+Proof.
+  induction cs as [|c cs IH]; intros w Hc H; [exact H|].
+  unfold ops_ok in Hc. cbn [forallb] in Hc. apply andb_prop in Hc. destruct Hc as [H1 H2]. apply andb_prop in H1. destruct H1 as [Ha Hw].
+  cbn [history fold_left]. apply IH; [exact H2|]. destruct c as [op fl]. cbn [fst] in *. destruct H as [Hco Hwf]. split.
+  - apply c16_every_call; assumption.
+  - unfold call. cbn [fst snd]. apply c01_wf_every_exit; assumption.
+Qed.
+
+Theorem c01_initial_ready : forall s dev, Ready (init_world dev s).
+Proof. intros s dev. split; [apply c16_initial | vm_compute; reflexivity]. Qed.
+
+(* hence: at every call of every history of well-typed API calls from a fresh driver, the hypotheses of the per-builder theorems
+   (device_<Builder>: wfb, coherent) hold of the state the call starts in *)
+Theorem c01_every_builder_call_ready : forall cs s dev, ops_ok cs = true ->
+  let w := history (init_world dev s) cs in wfb (shadow w) = true /\ coherent (shadow w) (wchip w).
+Proof.
+  intros cs s dev H w. destruct (c01_state_history cs (init_world dev s) H (c01_initial_ready s dev)) as [Hc Hw]. split; [exact Hw | exact Hc].
 Qed.
